@@ -298,3 +298,44 @@ void h_f_residual(void) { size_t n, xn; ptrdiff_t nnz; const ptrdiff_t *p, *c; c
 )
 
 UNITS += [spmv, residual]
+
+# ---------------------------------------------------------------- inner_product (serial, Kahan compensated)
+IP_LOOP = '''
+__CPROVER_assigns(i, s, c)
+__CPROVER_loop_invariant(0 <= i && i <= (ptrdiff_t)n && s == g_s[i] && c == g_c[i])
+__CPROVER_decreases((ptrdiff_t)n - i)
+'''
+inner_product = Unit(
+    name='builtin_inner_product_serial', props=['C07', 'C10'],
+    functions=['backend::inner_product_impl<Vec1,Vec2>::serial (builtin vectors)'],
+    desc='serial inner product: the Kahan-compensated recurrence over math::inner_product(x[i], y[i]) with x as FIRST and y as SECOND operand (the order carries conjugate-linearity in the second argument); empty frame; zero for n == 0',
+    cuts={'body': Cut(SRC, r'static return_type serial\(const Vec1 &x, const Vec2 &y\)\s*(?=\{)',
+                      rules=[Rule(r'\bx\.size\(\)', 'x_n', 1),
+                             Rule(r'\breturn_type\b', 'V', '+', why='return_type is a value token'),
+                             Rule(r'(V d = )', r'KAHAN_STEP(i); \1', 1,
+                                  why='pointwise instantiation of the recurrence that defines the ghost sequences')],
+                      uf=[UF(r'V [dt] = (?P<e>[^;]+);', 2), UF(r'\bc = (?P<e>[^;]+);', 2)],
+                      loops=[Loop(r'for\(ptrdiff_t i = 0;', IP_LOOP, prefix=True)])},
+    template=HDR + r'''
+/* ghost inputs: the Kahan sequences, defined by recurrence (a definition: exists for all x, y)
+ *   s_0 = c_0 = zero;  d_i = <x_i, y_i> - c_i;  s_{i+1} = s_i + d_i;  c_{i+1} = (s_{i+1} - s_i) - d_i     */
+const V *g_s, *g_c;
+#define KAHAN_D(i) UF_SUB(math_inner_product(x[i], y[i]), g_c[i])
+#define KAHAN_STEP(i) __CPROVER_assume(g_s[(i) + 1] == UF_ADD(g_s[i], KAHAN_D(i)) && g_c[(i) + 1] == UF_SUB(UF_SUB(g_s[(i) + 1], g_s[i]), KAHAN_D(i)))
+V f_inner_serial(const V *x, size_t x_n, const V *y)
+__CPROVER_requires(x_n <= NMAX / 16)
+__CPROVER_requires(__CPROVER_is_fresh(x, x_n * sizeof(V)) && __CPROVER_is_fresh(y, x_n * sizeof(V)))
+__CPROVER_requires(__CPROVER_is_fresh(g_s, (x_n + 1) * sizeof(V)) && __CPROVER_is_fresh(g_c, (x_n + 1) * sizeof(V)))
+__CPROVER_requires(g_s[0] == MATH_zero(V) && g_c[0] == MATH_zero(V))
+__CPROVER_assigns()
+__CPROVER_ensures(__CPROVER_return_value == g_s[x_n])
+{
+/*@CUT:body@*/
+}
+void h_f_inner_serial(void) { const V *x, *y; size_t n; f_inner_serial(x, n, y); }
+''',
+    enforce='f_inner_serial', mode='inductive', timeout=300,
+    assumptions=A_ASSUME + ['A-def: the ghost Kahan sequences are defined by recurrence and the recurrence is instantiated at the iteration that uses it (KAHAN_STEP)'],
+    not_decided=['the parallel (per-thread) variant and std::accumulate of the partial sums', 'that the compensated sum is close to the exact sum (floating point)'],
+)
+UNITS += [inner_product]
